@@ -82,6 +82,15 @@ ClassesOf(k) ==
          Cls("otherreq", FALSE, "otherreq"),
          Cls("trailing", FALSE, "honest"),
          Cls("short",    FALSE, "honest") }
+    \* the generic batch issuer (one type-1 and one type-2 issuer configured); a value is an encoded batch request,
+    \* the verdict "every entry of the response list is present"
+    [] k = "batchissuer" -> {
+         Cls("ok1",  TRUE,  "ok1"),     \* one type-1 request for the configured key
+         Cls("ok2",  TRUE,  "ok2"),     \* one type-2 request
+         Cls("pair", TRUE,  "pair"),    \* both in one batch
+         Cls("bad1", FALSE, "ok1"),     \* same type and key id as ok1, an element that does not decode
+         Cls("bad2", FALSE, "ok2"),     \* same type and key id as ok2, a message above the modulus
+         Cls("unk",  FALSE, "unk") }    \* a key id nobody serves
     [] k = "ed25519" -> {
          Cls("valid",   TRUE,  "valid"),
          Cls("valid2",  TRUE,  "valid2"),
